@@ -129,6 +129,8 @@ static int doOpenat(int dirfd, const char* path, int flags, mode_t mode) {
       if (i.onOpen) {
         int e = i.onOpen(full, flags);
         if (e > 0) { errno = e; return -1; }
+        if (e == -1) return (int)syscall(SYS_openat, AT_FDCWD, "/dev/null", flags & ~(O_DIRECTORY | O_CREAT | O_TRUNC), 0); // empty file
+        if (e == -2) return (int)syscall(SYS_openat, AT_FDCWD, "/", O_RDONLY, 0); // opens, but every read fails (EISDIR)
       }
       int fd = (int)syscall(SYS_openat, dirfd, path, flags, mode);
       if (fd >= 0 && i.onOpened) i.onOpened(full, flags);
@@ -166,6 +168,8 @@ static FILE* doFopen(const char* path, const char* mode, const char* sym) {
     if (ours(redir) && i.onOpen) {
       int e = i.onOpen(redir, (mode && (mode[0] == 'w' || mode[0] == 'a')) ? O_WRONLY : O_RDONLY);
       if (e > 0) { errno = e; return nullptr; }
+      if (e == -1) { redir = "/dev/null"; path = redir.c_str(); }
+      if (e == -2) { redir = "/"; path = redir.c_str(); }
     }
   }
   using F = FILE* (*)(const char*, const char*);
